@@ -104,6 +104,35 @@ def run(ctx):
             meta.append((t, text))
         except X.Unsupported:
             skipped += 1
+    # C backend: the same trees printed by cgen and read back under C semantics (token mapping in lib_expr.clex)
+    from loki.backend import cgen
+
+    def has_var(t):
+        return t['k'] == 'var' or any(has_var(c) for c in t.get('c', []))
+
+    def c_typings(t):
+        """pow(x, y) is double in C: integer-typed powers are a documented difference of the target language,
+        so trees with powers are compared under the real typing only, and literal-only powers not at all."""
+        pows = [sub for _, sub in X.subtrees(t) if sub['k'] == 'pow']
+        if any(not has_var(pw['c'][0]) and not has_var(pw['c'][1]) for pw in pows):
+            return []
+        return ['real'] if pows else ['int', 'real']
+    nc = 0
+    if not ctx.replay or ctx.replay['case'].get('backend') == 'c':
+        ctrees = (trees[::6] + deep[::4]) if not ctx.replay else trees
+        for t in ctrees:
+            tys = c_typings(t)
+            if not tys:
+                continue
+            try:
+                text = cgen(X.build(t, tys[0]))
+                cases.append({'typings': tys, 'ref': {'form': 'tree', 'tree': t, 'toks': []},
+                              'obs': {'form': 'toks', 'toks': X.clex(text), 'tree': X.N(0)}})
+                meta.append((t, 'C:' + text))
+                nc += 1
+            except X.Unsupported:
+                skipped += 1
+    ctx.cover['c_backend_cases'] = nc
     # trees produced by substitution: x -> subtree inside a host expression
     if not ctx.replay:
         from loki.ir import SubstituteExpressions
@@ -133,7 +162,7 @@ def run(ctx):
             except X.Unsupported:
                 skipped += 1
     # pre-flight on a sample of integer-valued, division-free-of-zero texts
-    sample = [(t, s) for t, s in meta[:4000] if X.size(t) <= 7 and 'cmp' not in X.shape(t) and 'pow' not in X.shape(t)
+    sample = [(t, s) for t, s in meta[:4000] if not s.startswith('C:') and X.size(t) <= 7 and 'cmp' not in X.shape(t) and 'pow' not in X.shape(t)
               and 'quot' not in X.shape(t)]
     rng.shuffle(sample)
     if not ctx.replay:
@@ -156,6 +185,10 @@ def run(ctx):
     # failing cases are few distinct shapes so we group by abstract shape first)
     by_shape = {}
     for t, text, clause in fails:
+        if text.startswith('C:'):
+            ctx.violation('cgen:' + X.shape1(t), f'cgen({X.show(t)}) = {text[2:]!r} does not denote the tree under C semantics: {clause}',
+                          {'tree': t, 'backend': 'c'})
+            continue
         by_shape.setdefault(X.shape(t), (t, text, clause))
     todo = sorted(by_shape.items(), key=lambda kv: len(kv[0]))
     head, rest = todo[:30], todo[30:]
@@ -190,5 +223,5 @@ def run(ctx):
         'values compared on 125 integer and 125 real valuations of (a,b,c); real arithmetic exact (rounding out of model)',
         'valuations where the tree itself is undefined (division by zero, magnitude > 30000, non-integral real exponent) are not judged',
         'GNU extension "sign after operator" (a*-b) is read with gfortran\'s meaning and never the reason for a violation',
-        'C backend (cgen) not covered by this check yet',
+        'C backend: operator subset without %, casts; integer-typed powers (pow() is double in C) are compared under the real typing only',
     ]
